@@ -191,7 +191,7 @@ pub struct Gen<'a> {
     tracer_ok: bool,
 }
 
-const STRS: &[&str] = &["", "a", "ab", "abc", "é", "x€y", "😀", "hello world", "A1", "  ", "0", "12", "a,b,c"];
+const STRS: &[&str] = &["", "a", "ab", "abc", "é", "x€y", "😀", "hello world", "A1", "  ", "0", "12", "a,b,c", "two\nlines"];
 const NUMS: &[f64] = &[
     0.0, 1.0, 2.0, 3.0, 4.0, 7.0, 10.0, 0.5, 1.5, 2.25, 100.0, 255.0, 256.0, 65536.0, 4294967296.0,
     9007199254740993.0, 1e19, 0.1, 63.0, 64.0,
@@ -710,7 +710,9 @@ impl<'a> Gen<'a> {
 
     fn call_expr(&mut self, want: Kind, d: usize) -> Expr {
         let cs = self.callables();
-        if cs.is_empty() {
+        // no calls of user functions from inside a finally block (recorded finding E9: a try
+        // statement executed there clears the pending exception)
+        if cs.is_empty() || (self.in_finally() && !self.prof.triggers.e9) {
             return self.expr(want, 0);
         }
         let (name, arity) = cs[self.rd.below(cs.len())].clone();
